@@ -39,7 +39,7 @@ const (
 	l2SoftFloor    = 6 * time.Second
 	l2SoftFactor   = 20
 	l2ChunkMax     = 300
-	l2ChunkHeavy   = 24
+	l2ChunkHeavy   = 8
 	l2SlowParallel = 32
 )
 
@@ -624,9 +624,9 @@ func RunLayer2(r *core.Run) {
 		bin = os.Args[0]
 	}
 	targets, cases := l2BuildCases(r.Tier)
-	budget := 170 * time.Second
+	budget := 10 * time.Minute // safety net only (a loaded machine); the normal quick run takes about 2.5 min
 	if r.Tier == "thorough" {
-		budget = 14 * time.Minute
+		budget = 45 * time.Minute
 	}
 	p := &l2Parent{r: r, bin: bin, tier: r.Tier, targets: targets, cases: cases, results: map[int]*l2Result{},
 		baseMs: map[string]float64{}, slow: make(chan int, len(cases)+1), deadline: time.Now().Add(budget)}
@@ -664,8 +664,29 @@ func RunLayer2(r *core.Run) {
 			}
 		}()
 	}
-	core.ParallelFor(len(chunks), runtime.NumCPU(), func(i int) { p.runRange(chunks[i].a, chunks[i].b, false) })
+	chunkSec := make([]float64, len(chunks))
+	core.ParallelFor(len(chunks), runtime.NumCPU(), func(i int) {
+		t0 := time.Now()
+		p.runRange(chunks[i].a, chunks[i].b, false)
+		chunkSec[i] = time.Since(t0).Seconds()
+	})
 	tMain := time.Since(tStart)
+	{
+		type cs struct {
+			s    string
+			secs float64
+		}
+		var all []cs
+		for i, c := range chunks {
+			all = append(all, cs{fmt.Sprintf("%s cases %d..%d: %.1fs (started at +%.0fs)", targets[cases[c.a].tgt].name, c.a, c.b, chunkSec[i], 0.0), chunkSec[i]})
+		}
+		sort.Slice(all, func(i, j int) bool { return all[i].secs > all[j].secs })
+		top := []string{}
+		for i := 0; i < len(all) && i < 8; i++ {
+			top = append(top, all[i].s)
+		}
+		r.Set("l2_slowest_chunks", top)
+	}
 	p.slowWG.Wait()
 	close(p.slow)
 	slowDone.Wait()
